@@ -59,6 +59,7 @@ def write_replay(pid, tier, seed, v):
         "seed": seed,
         "family": v.get("family"),
         "index": v.get("index"),
+        "chunk_start": v.get("chunk_start"),
         "history": v.get("history"),
         "case": v.get("case"),
         "violation": {k: v[k] for k in ("site", "clause", "cls", "detail")},
@@ -117,6 +118,18 @@ def replay(pid, path):
     if hit:
         print(f"REPLAY-REPRODUCED property={pid} replay={path}")
         return 1
+    # The single case is clean in a fresh process.  If the library carries state from earlier calls, the failure needs
+    # its predecessors: re-execute the worker's chunk prefix (the cases that ran before it in the same process).
+    cs = body.get("chunk_start")
+    if fam.kind != "bfs" and cs is not None and body.get("index") is not None and cs < body["index"]:
+        last = None
+        for i in range(cs, body["index"] + 1):
+            _case, last = fam.run_index(i, body["seed"])
+        for v in last.violations:
+            if (v["site"], v["clause"], v["cls"]) == (want["site"], want["clause"], want["cls"]):
+                print(f"  reproduced only after the {body['index'] - cs} preceding cases of its chunk (indices {cs}..{body['index']}): the library carries state between calls")
+                print(f"REPLAY-REPRODUCED property={pid} replay={path}")
+                return 1
     print(f"REPLAY-NOT-REPRODUCED property={pid} ({len(viol)} other violations)")
     return 0
 
